@@ -136,10 +136,10 @@ func runC13Chain(c *Ctx) {
 			case fromChain[e]:
 				nChain++
 				c.OK(r.Pos(), fn, construct, "derived from the result of monotoneChain")
-			case fromPts[e] && !typeIs(e, "Polygon"):
-				c.OK(r.Pos(), fn, construct, "point case: built from the extracted point set, no ring involved")
+			case fromPts[e] && isCallTo(e, "geom.(Point).AsGeometry"):
+				c.OK(r.Pos(), fn, construct, "point case: a single point of the extracted point set")
 			default:
-				c.Bad(r.Pos(), fn, construct, "a hull is returned that is not computed by monotoneChain from the point set: it keeps the input's ring winding/vertices (the calipers assume the chain's counter-clockwise ring; collinear vertices and duplicates are only removed by the chain)")
+				c.Bad(r.Pos(), fn, construct, "a line or polygon hull is returned that is not computed by monotoneChain from the point set: only the chain establishes the extreme points, the counter-clockwise ring the calipers assume, and the removal of collinear and duplicate vertices (independence of point order and multiplicity)")
 			}
 		}
 	}
